@@ -261,7 +261,10 @@ func c22OneMatch(e c22ExpCell, a, g c22Cell) bool {
 		if e.Approx {
 			d := math.Abs(a.F - g.F)
 			m := math.Max(math.Abs(a.F), math.Abs(g.F))
-			return d <= 1e-12*m
+			// a result near 0 out of a running sum (moving_average adds the new and subtracts the
+			// old value) keeps the rounding error of its operands, which are O(1..100) here: the
+			// relative bound alone would demand exact cancellation
+			return d <= 1e-12*m || d <= 1e-10
 		}
 		return false
 	}
